@@ -316,17 +316,27 @@ def run_python(sc, fault=None, mirror_false=False):
         planner = G.PRM(sc["prm_build_s"], sc["radius"], pd, conf)
     chk = Checker(space, cfg, sc["world"], fault)
     err = io.StringIO()
+    stage = "setup"
     with contextlib.redirect_stderr(err):
-        planner.setup(chk)
         try:
+            planner.setup(chk)
             if pl == "PRM":
+                stage = "construct_roadmap"
                 planner.construct_roadmap()
+            stage = "solve"
             path = planner.solve(sc["timeout"])
             tag, states = "Ok", [flat_of(cfg, s) for s in path.states]
-        except FaultError:
-            raise
         except Exception as e:  # noqa: BLE001 - the bindings raise plain Exception
-            tag, states = ERRMAP.get(str(e), "Exception:" + str(e)), None
+            msg = str(e)
+            if msg in ERRMAP:
+                tag, states = ERRMAP[msg], None
+            elif isinstance(e, FaultError) or "injected callback failure" in msg or (
+                    fault is not None and isinstance(e, (TypeError, KeyError, StopIteration, ZeroDivisionError, AttributeError))):
+                # the user's exception (or the conversion error of a non-bool answer) came out of
+                # the planner call instead of being treated as "invalid" / "not satisfied"
+                tag, states = f"Escaped:{stage}:{type(e).__name__}", None
+            else:
+                tag, states = "Exception:" + msg, None
         except BaseException as e:  # noqa: BLE001 - pyo3's PanicException derives from BaseException
             if type(e).__name__ != "PanicException":
                 raise
@@ -502,7 +512,8 @@ def scenario(draw, planners=("RRT", "RRTConnect", "RRTStar"), with_obstacles=Tru
                 dims.append([offs[i] + j, jl, cut] if draw(st.booleans()) else [offs[i] + j, cut, jh])
             obst.append({"Box": {"dims": dims}})
     pl = draw(st.sampled_from(list(planners)))
-    step = draw(fl(0.08, 0.6)) * ext
+    # mostly a fraction of the extent; a fifth of the time comparable to or larger than the space
+    step = draw(st.one_of(fl(0.08, 0.6), fl(0.08, 0.6), fl(0.08, 0.6), fl(0.08, 0.6), fl(0.6, 1.6))) * ext
     sc = {
         "space": cfg, "start": start, "targets": targets, "goal_radius": draw(fl(0.05, 0.25)) * ext,
         "world": {"obst": obst, "only_inside": None, "sballs": sballs},
@@ -651,7 +662,26 @@ def finish(stats, rule, assumptions):
         "assumptions": assumptions, "wall_s": time.time() - stats.t0, "violations": violations,
     }
     os.makedirs(os.path.join(VERIF, "evidence"), exist_ok=True)
-    json.dump(ev, open(os.path.join(VERIF, "evidence", f"{stats.pid}.json"), "w"), indent=1)
+    evp = os.path.join(VERIF, "evidence", f"{stats.pid}.json")
+    if stats.pid == "C07" and os.path.exists(evp):
+        # the Rust half of C07 has just written the evidence file: add this part to it
+        base = json.load(open(evp))
+        cov = base["coverage"]
+        pname = "python-two-instances"
+        cov["evaluations"] += stats.evaluations
+        cov["distinct_nontrivial"] += len(stats.nontrivial)
+        cov["rule"] += f" || [{pname}] {rule}"
+        cov["samples"] += [{"part": pname, "case": x["case"]} for x in stats.samples[:2]]
+        cov.setdefault("labels", {})[pname] = stats.labels
+        if stats.discards:
+            cov.setdefault("discards", {})[pname] = stats.discards
+        cov.setdefault("parts", []).append({"part": pname, "evaluations": stats.evaluations, "corpus": 0, "enumerated": 0,
+                                            "random": stats.evaluations, "distinct_nontrivial": len(stats.nontrivial),
+                                            "enumeration_exhaustive_over_stated_lattice": False})
+        base["wall_s"] += time.time() - stats.t0
+        base["violations"] += violations
+        ev = base
+    json.dump(ev, open(evp, "w"), indent=1)
     out_lines.append(f"{stats.pid} {stats.tier}: evaluations={stats.evaluations} distinct_nontrivial={len(stats.nontrivial)} "
                      f"violations={violations} wall={time.time() - stats.t0:.1f}s")
     say("\n".join(out_lines))
@@ -967,6 +997,12 @@ def c20_check(sc, stats):
         stats.label("fault-region-centre:" + fault.get("centre", "any"))
     if reached:
         stats.label("fault-reached")
+    if tagA.startswith("Escaped:"):
+        stats.case(sc, True, part)
+        stats.fail(f"C20:callback-failure-escaped:{sc['planner']}:{tagA.split(':')[1]}:{fault['where']}",
+                   f"the failing callback's exception came out of the planner call ({tagA}) instead of the state being treated as "
+                   f"invalid / not satisfying the goal", sc, part)
+        return
     # no path through a state on which the callback failed / inside the fault region
     # (region plans only: with a k-th-call plan the same state may legitimately be accepted by
     # another, non-failing call; there the A-versus-B comparison below is the whole oracle)
@@ -1043,6 +1079,56 @@ def run_c20(tier):
 
 
 # ------------------------------------------------------------------------------------------
+# C07 (Python half): two planner objects built from the same scenario return identical results
+# ------------------------------------------------------------------------------------------
+def c07_check(sc, stats):
+    part = "python-two-instances"
+    tag1, p1, _, _, _ = run_python(sc)
+    tag2, p2, _, _, _ = run_python(sc)
+    stats.label("planner:" + sc["planner"])
+    stats.label("kind:" + sc["space"]["kind"])
+    if sc["seed"] == 0:
+        stats.label("seed-0")
+    if tag1 == "Timeout" or tag2 == "Timeout":
+        stats.discard("timeout")
+        return
+    stats.label("outcome:" + tag1)
+    stats.case(sc, tag1 == "Ok" and len(p1) >= 3, part)
+    if tag1 != tag2:
+        stats.fail(f"C07:py-result-differs:{sc['planner']}:{sc['space']['kind']}",
+                   f"two Python planners with seed {sc['seed']} on the same problem: {tag1} versus {tag2}", sc, part)
+    if tag1 == "Ok" and [[hx(x) for x in s] for s in p1] != [[hx(x) for x in s] for s in p2]:
+        stats.fail(f"C07:py-result-differs:{sc['planner']}:{sc['space']['kind']}",
+                   f"two Python planners with seed {sc['seed']} on the same problem returned different paths "
+                   f"({len(p1)} and {len(p2)} states)", sc, part)
+
+
+C07_RULE = ("Hypothesis-generated C19 scenarios (six from_* variants x RRT / RRT-Connect / RRT*, seeds incl. 0) run twice through "
+            "oxmpl_py with fresh objects: outcome and path must be identical bit for bit. Non-trivial = Ok(path) with >= 3 states.")
+
+
+def worker_c07(tier, k):
+    stats = Stats("C07", tier)
+    n = (800 if tier == "quick" else 6000) // WORKERS
+    try:
+        @seed(SEED * 1000 + k)
+        @hyp_settings(n)
+        @given(scenario())
+        def t(sc):
+            c07_check(sc, stats)
+
+        t()
+    except AssertionError:
+        if stats.failure is None:
+            raise
+    return stats
+
+
+def run_c07(tier):
+    return run_parallel("C07", tier, C07_RULE, [])
+
+
+# ------------------------------------------------------------------------------------------
 def replay(path):
     doc = json.load(open(path))
     pid, part, sc = doc["property"], doc["part"], doc["case"]
@@ -1056,6 +1142,8 @@ def replay(path):
             c19_wrappers(stats)
         elif pid == "C20":
             c20_check(sc, stats)
+        elif pid == "C07":
+            c07_check(sc, stats)
     except AssertionError:
         pass
     if stats.failure:
@@ -1071,12 +1159,12 @@ def main():
         code = replay(sys.argv[2])
     elif len(sys.argv) >= 6 and sys.argv[1] == "worker":
         pid, tier, k, outp = sys.argv[2], sys.argv[3], int(sys.argv[4]), sys.argv[5]
-        st = worker_c19(tier, k) if pid == "C19" else worker_c20(tier, k)
+        st = {"C19": worker_c19, "C20": worker_c20, "C07": worker_c07}[pid](tier, k)
         json.dump(stats_to_json(st), open(outp, "w"))
         code = 0
     elif len(sys.argv) >= 3 and sys.argv[1] == "run":
         tier = sys.argv[3] if len(sys.argv) > 3 else "quick"
-        code = run_c19(tier) if sys.argv[2] == "C19" else run_c20(tier)
+        code = {"C19": run_c19, "C20": run_c20, "C07": run_c07}[sys.argv[2]](tier)
     else:
         say("usage: engine.py run C19|C20 quick|thorough | replay <file>")
         code = 2
